@@ -80,13 +80,18 @@ Lemma list_upd_same {A} (l:list A) : forall k x, nth_error l k = Some x -> list_
 Proof. induction l; intros [|k] x H; cbn in *; try discriminate; [inversion H; auto|f_equal; auto]. Qed.
 
 (* the transformer that changes nothing *)
-Definition tr_id (k:nat) (ck:context) : tr := {| t_ctx := Some (k, ck); t_out := []; t_nss := fun nss => nss |}.
+Definition tr_id (k:nat) (ck:context) : tr := {| t_ctx := fun l => list_upd l k ck; t_out := []; t_nss := fun nss => nss |}.
 Lemma app_tr_id k ck r : nth_error (r_ctxs r) k = Some ck -> app (tr_id k ck) r = r.
 Proof.
   intro H. rewrite (rt_eta r) at 2. unfold app, tr_id. cbn. rewrite app_nil_r, (list_upd_same _ _ _ H). reflexivity.
 Qed.
 Lemma tr_id_ok k ck i R W : k <> i -> tr_ok (tr_id k ck) i R W.
-Proof. intro H. split; [exact H|]. split; reflexivity. Qed.
+Proof.
+  intro H. split; cbn; auto.
+  - intro l. apply list_upd_nth_other. auto.
+  - intros l c. apply list_upd_comm. auto.
+  - intro l. apply list_upd_length.
+Qed.
 
 (* a turn whose instructions stay inside (R, W) leaves every other script exactly as it is *)
 Lemma turn_leaves_others b1 b2 R W r i x ri v k ck :
@@ -122,7 +127,7 @@ Record quiet (r ri:rt) : Prop := {
 Definition nss_effect (W:list key) (r ri:rt) : Prop := r_nss ri = ov W (r_nss ri) (r_nss r).
 
 Definition eff (i:nat) (W:list key) (ri:rt) : tr :=
-  {| t_ctx := match nth_error (r_ctxs ri) i with Some c => Some (i, c) | None => None end;
+  {| t_ctx := match nth_error (r_ctxs ri) i with Some c => fun l => list_upd l i c | None => fun l => l end;
      t_out := r_out ri; t_nss := ov W (r_nss ri) |}.
 
 Lemma turn_as_tr b1 b2 R W r i x ri v a :
@@ -155,8 +160,10 @@ Qed.
 
 Lemma eff_ok i j Wj R W rj : i <> j -> disjoint R Wj = true -> disjoint W Wj = true -> tr_ok (eff j Wj rj) i R W.
 Proof.
-  intros Ne D1 D2. unfold eff. split; [|split]; cbn.
-  - destruct (nth_error (r_ctxs rj) j); auto; try congruence.
+  intros Ne D1 D2. unfold eff. split; cbn.
+  - intro l. destruct (nth_error (r_ctxs rj) j); auto. apply list_upd_nth_other. auto.
+  - intros l c. destruct (nth_error (r_ctxs rj) j); auto. apply list_upd_comm. auto.
+  - intro l. destruct (nth_error (r_ctxs rj) j); auto. apply list_upd_length.
   - intros nss ns n K. apply ov_get. apply (disjoint_spec _ _ _ D1 K).
   - intros nss ns n v K. apply ov_set. apply (disjoint_spec _ _ _ D2 K).
 Qed.
@@ -255,9 +262,9 @@ Example ex_independent_turns :
 Proof. repeat split; vm_compute; try reflexivity; discriminate. Qed.
 
 (* ------------------------------------------------------------------ the log is write-only *)
-Definition tr_log (old:list event) : tr := {| t_ctx := None; t_out := old; t_nss := fun nss => nss |}.
+Definition tr_log (old:list event) : tr := {| t_ctx := fun l => l; t_out := old; t_nss := fun nss => nss |}.
 Lemma tr_log_ok old i R W : tr_ok (tr_log old) i R W.
-Proof. split; [exact I|]. split; reflexivity. Qed.
+Proof. split; reflexivity. Qed.
 Lemma app_tr_log r : app (tr_log (r_out r)) (set_out r []) = r.
 Proof. rewrite (rt_eta r) at 3. reflexivity. Qed.
 (* a turn from a machine whose log already holds `old` does what it does from the empty log, with `old` underneath *)
@@ -326,10 +333,10 @@ Proof.
   { rewrite <- (visit_ok_active b1 Rj Wj ri None j), Ei, visit_ok_active, (visit_ok_app _ j Rj Wj) by auto. exact OKj. }
   assert (Li : i < length (r_ctxs rj)).
   { assert (E : r_ctxs rj = r_ctxs (app (eff j Wj rj) r0)) by (change (r_ctxs (set_active rj None) = r_ctxs (set_active (app (eff j Wj rj) r0) None)); rewrite Ej; reflexivity).
-    rewrite E. cbn [r_ctxs app]. destruct (t_ctx (eff j Wj rj)) as [[? ?]|]; [rewrite list_upd_length|]; exact Hi. }
+    rewrite E. cbn [r_ctxs app]. rewrite (tk_len _ _ _ _ Tj). exact Hi. }
   assert (Lj : j < length (r_ctxs ri)).
   { assert (E : r_ctxs ri = r_ctxs (app (eff i Wi ri) r0)) by (change (r_ctxs (set_active ri None) = r_ctxs (set_active (app (eff i Wi ri) r0) None)); rewrite Ei; reflexivity).
-    rewrite E. cbn [r_ctxs app]. destruct (t_ctx (eff i Wi ri)) as [[? ?]|]; [rewrite list_upd_length|]; exact Hj. }
+    rewrite E. cbn [r_ctxs app]. rewrite (tk_len _ _ _ _ Ti). exact Hj. }
   exists (app L ri), (app L rj), (app L m10), (app L m20).
   split; [|split; [|split; [|split; [|split; [|split]]]]].
   - rewrite Er at 1. unfold L. rewrite (log_is_write_only b1 b2 Ri Wi) by auto. rewrite Vi. reflexivity.
@@ -339,4 +346,167 @@ Proof.
   - unfold L. rewrite !shared_state_tr_log. exact Sh.
   - cbn [r_out app tr_log t_out L]. rewrite Lo1, <- app_assoc. reflexivity.
   - cbn [r_out app tr_log t_out L]. rewrite Lo2, <- app_assoc. reflexivity.
+Qed.
+
+(* ------------------------------------------------------------------ whole rounds *)
+From Coq Require Import Permutation.
+Definition comp (T1 T2:tr) : tr :=
+  {| t_ctx := fun l => t_ctx T1 (t_ctx T2 l); t_out := t_out T2 ++ t_out T1; t_nss := fun n => t_nss T1 (t_nss T2 n) |}.
+Lemma app_comp T1 T2 r : app T1 (app T2 r) = app (comp T1 T2) r.
+Proof. unfold app, comp. cbn. rewrite app_assoc. reflexivity. Qed.
+Lemma comp_ok T1 T2 i R W : tr_ok T1 i R W -> tr_ok T2 i R W -> tr_ok (comp T1 T2) i R W.
+Proof.
+  intros A B. split; cbn.
+  - intro l. rewrite (tk_nth _ _ _ _ A), (tk_nth _ _ _ _ B). reflexivity.
+  - intros l c. rewrite (tk_upd _ _ _ _ B), (tk_upd _ _ _ _ A). reflexivity.
+  - intro l. rewrite (tk_len _ _ _ _ A), (tk_len _ _ _ _ B). reflexivity.
+  - intros nss ns n K. rewrite (tk_get _ _ _ _ A), (tk_get _ _ _ _ B); auto.
+  - intros nss ns n v K. rewrite (tk_set _ _ _ _ B), (tk_set _ _ _ _ A); auto.
+Qed.
+Definition tr_none : tr := {| t_ctx := fun l => l; t_out := []; t_nss := fun n => n |}.
+Lemma tr_none_ok i R W : tr_ok tr_none i R W.
+Proof. split; reflexivity. Qed.
+Lemma app_tr_none r : app tr_none r = r.
+Proof. rewrite (rt_eta r) at 2. unfold app, tr_none. cbn. rewrite app_nil_r. reflexivity. Qed.
+
+(* a turn together with what it touches and what it does when taken alone *)
+Record turn := { u_idx : nat; u_R : list key; u_W : list key; u_x : rresult; u_r : rt; u_v : visit }.
+Definition solo (b1 b2:bool) (r:rt) (u:turn) : Prop := solo_turn b1 b2 r (u_idx u) (u_R u) (u_W u) (u_x u) (u_r u) (u_v u).
+Definition eff_of (u:turn) : tr := eff (u_idx u) (u_W u) (u_r u).
+(* the turns are taken one after the other, each returns exactly the result and visit record it has alone *)
+Inductive runs (b1 b2:bool) : rt -> list turn -> rt -> Prop :=
+| runs_nil r : runs b1 b2 r [] r
+| runs_cons r u r' us m : visit_ctx b1 b2 r (u_idx u) = Ok (u_x u, r', u_v u) -> runs b1 b2 r' us m -> runs b1 b2 r (u :: us) m.
+(* turns of different scripts are independent *)
+Definition all_independent (us:list turn) : Prop :=
+  NoDup (map u_idx us) /\
+  forall u w, In u us -> In w us -> u_idx u <> u_idx w -> independent (u_R u) (u_W u) (u_R w) (u_W w) = true.
+
+Lemma independent_parts Ri Wi Rj Wj : independent Ri Wi Rj Wj = true ->
+  disjoint Ri Wj = true /\ disjoint Wi Wj = true /\ disjoint Rj Wi = true.
+Proof. unfold independent. intro H. apply andb_prop in H. destruct H as [A H]. apply andb_prop in H. tauto. Qed.
+
+Definition effs (T:tr) (us:list turn) : tr := fold_left (fun T u => comp T (eff_of u)) us T.
+
+Lemma runs_effs b1 b2 r : r_out r = [] -> r_tick r = 0%Z -> forall us T M,
+  set_active M None = set_active (app T r) None ->
+  Forall (solo b1 b2 r) us -> all_independent us ->
+  (forall u, In u us -> tr_ok T (u_idx u) (u_R u) (u_W u)) ->
+  exists m, runs b1 b2 M us m /\ set_active m None = set_active (app (effs T us) r) None.
+Proof.
+  intros O0 T0. induction us as [|u us IH]; intros T M EM So [Nd In] OKT.
+  - exists M. split; [constructor|exact EM].
+  - inversion So as [|? ? Su Sus]; subst. destruct Su as [Vu Hu OKu Qu Nu].
+    pose proof (turn_as_tr b1 b2 _ _ r _ _ _ _ None Vu Hu OKu O0 T0 Qu Nu) as Eu.
+    assert (OKTu : tr_ok T (u_idx u) (u_R u) (u_W u)) by (apply OKT; left; auto).
+    assert (V : visit_ctx b1 b2 M (u_idx u) = Ok (u_x u, app T (u_r u), u_v u)).
+    { rewrite <- (visit_ctx_active b1 b2 M None), EM, visit_ctx_active.
+      rewrite (app_visit_ctx _ _ (u_R u) (u_W u)) by auto. rewrite Vu. reflexivity. }
+    inversion Nd as [|? ? Nu1 Nd']; subst.
+    destruct (IH (comp T (eff_of u)) (app T (u_r u))) as (m & Rm & Em).
+    + rewrite <- app_comp. rewrite (app_set_active T (u_r u)), (app_set_active T (app (eff_of u) r)). unfold eff_of. rewrite Eu. reflexivity.
+    + exact Sus.
+    + split; auto. intros a b Ia Ib. apply In; right; auto.
+    + intros w Iw. apply comp_ok; [apply OKT; right; auto|].
+      assert (Ne : u_idx w <> u_idx u).
+      { intro E. apply Nu1. rewrite <- E. apply in_map. auto. }
+      destruct (independent_parts _ _ _ _ (In u w (or_introl eq_refl) (or_intror Iw) (fun E => Ne (eq_sym E)))) as (D1 & D2 & D3).
+      apply eff_ok; auto using disjoint_sym.
+    + exists m. split; [exact (runs_cons b1 b2 M u _ us m V Rm)|exact Em].
+Qed.
+
+(* two machines that agree on everything but the log and r_active still do after the same frame transformer *)
+Lemma shared_state_app T a b : shared_state a = shared_state b -> shared_state (app T a) = shared_state (app T b).
+Proof.
+  intro H.
+  assert (F0 : r_ctxs a = r_ctxs b) by exact (f_equal r_ctxs H).
+  assert (F1 : r_state a = r_state b) by exact (f_equal r_state H).
+  assert (F2 : r_exit_req a = r_exit_req b) by exact (f_equal r_exit_req H).
+  assert (F3 : r_halt_req a = r_halt_req b) by exact (f_equal r_halt_req H).
+  assert (F4 : r_run a = r_run b) by exact (f_equal r_run H).
+  assert (F5 : r_err a = r_err b) by exact (f_equal r_err H).
+  assert (F6 : r_msgs a = r_msgs b) by exact (f_equal r_msgs H).
+  assert (F7 : r_nss a = r_nss b) by exact (f_equal r_nss H).
+  assert (F8 : r_clock a = r_clock b) by exact (f_equal r_clock H).
+  assert (F9 : r_tick a = r_tick b) by exact (f_equal r_tick H).
+  assert (F10 : r_timestamp a = r_timestamp b) by exact (f_equal r_timestamp H).
+  assert (F11 : r_run_ts a = r_run_ts b) by exact (f_equal r_run_ts H).
+  assert (F12 : r_max_runtime a = r_max_runtime b) by exact (f_equal r_max_runtime H).
+  assert (F13 : r_max_loop a = r_max_loop b) by exact (f_equal r_max_loop H).
+  assert (F14 : r_slice a = r_slice b) by exact (f_equal r_slice H).
+  assert (F15 : r_next_id a = r_next_id b) by exact (f_equal r_next_id H).
+  assert (F16 : r_defects a = r_defects b) by exact (f_equal r_defects H).
+  unfold shared_state, set_out, set_active, rt_with, app.
+  cbn [r_ctxs r_active r_state r_exit_req r_halt_req r_run r_err r_msgs r_out r_nss r_clock r_tick
+       r_timestamp r_run_ts r_max_runtime r_max_loop r_slice r_next_id r_defects].
+  rewrite F0, F1, F2, F3, F4, F5, F6, F7, F8, F9, F10, F11, F12, F13, F14, F15, F16. reflexivity.
+Qed.
+Lemma shared_state_active a b : set_active a None = set_active b None -> shared_state a = shared_state b.
+Proof. intro H. unfold shared_state. rewrite H. reflexivity. Qed.
+
+Lemma eff_of_comm u w r : u_idx u <> u_idx w -> disjoint (u_W u) (u_W w) = true ->
+  shared_state (app (eff_of u) (app (eff_of w) r)) = shared_state (app (eff_of w) (app (eff_of u) r)).
+Proof.
+  intros Ne D. unfold shared_state, eff_of, app, set_out, set_active, rt_with, eff.
+  cbn [t_ctx t_out t_nss r_ctxs r_active r_state r_exit_req r_halt_req r_run r_err r_msgs r_out r_nss r_clock r_tick
+       r_timestamp r_run_ts r_max_runtime r_max_loop r_slice r_next_id r_defects].
+  rewrite (ov_comm (u_W u) (u_W w)) by auto.
+  destruct (nth_error (r_ctxs (u_r u)) (u_idx u)); destruct (nth_error (r_ctxs (u_r w)) (u_idx w)); try reflexivity.
+  rewrite (list_upd_comm _ (u_idx w) (u_idx u)) by auto. reflexivity.
+Qed.
+
+Definition teq (T T':tr) : Prop := forall r, shared_state (app T r) = shared_state (app T' r).
+Lemma effs_teq us : forall T T', teq T T' -> teq (effs T us) (effs T' us).
+Proof.
+  induction us as [|u us IH]; intros T T' H; cbn; auto.
+  apply IH. intro r. rewrite <- !app_comp. apply H.
+Qed.
+
+Lemma effs_perm us us' : Permutation us us' -> all_independent us -> forall T, teq (effs T us) (effs T us').
+Proof.
+  induction 1; intros AI T.
+  - intro r. reflexivity.
+  - cbn. apply IHPermutation. destruct AI as [Nd In]. inversion Nd; subst. split; auto. intros a b Ia Ib. apply In; right; auto.
+  - cbn. apply effs_teq. intro r. rewrite <- !app_comp. apply shared_state_app.
+    destruct AI as [Nd In]. inversion Nd as [|? ? N1 N2]; subst.
+    assert (Ne : u_idx x <> u_idx y) by (intro E; apply N1; rewrite <- E; left; reflexivity).
+    destruct (independent_parts _ _ _ _ (In x y (or_intror (or_introl eq_refl)) (or_introl eq_refl) Ne)) as (_ & D & _).
+    symmetry. apply eff_of_comm; auto.
+  - intro r. rewrite (IHPermutation1 AI T r). apply IHPermutation2.
+    destruct AI as [Nd In]. split.
+    + eapply Permutation_NoDup; [apply Permutation_map; eassumption|exact Nd].
+    + intros a b Ia Ib. apply In; eapply Permutation_in; try eassumption; apply Permutation_sym; assumption.
+Qed.
+
+(* A round of pairwise independent turns can be taken in any order: every order is possible, every script does in it exactly
+   what it does alone, and the final machines agree on everything but the order of the log lines and r_active. *)
+Theorem round_order_irrelevant b1 b2 r us us' :
+  r_out r = [] -> r_tick r = 0%Z ->
+  Forall (solo b1 b2 r) us -> all_independent us -> Permutation us us' ->
+  exists m m', runs b1 b2 r us m /\ runs b1 b2 r us' m' /\ shared_state m = shared_state m'.
+Proof.
+  intros O0 T0 So AI P.
+  assert (AI' : all_independent us').
+  { destruct AI as [Nd In]. split.
+    - eapply Permutation_NoDup; [apply Permutation_map; eassumption|exact Nd].
+    - intros a b Ia Ib. apply In; eapply Permutation_in; try eassumption; apply Permutation_sym; assumption. }
+  assert (So' : Forall (solo b1 b2 r) us') by (eapply Permutation_Forall; eauto).
+  assert (E0 : set_active r None = set_active (app tr_none r) None) by (rewrite app_tr_none; reflexivity).
+  destruct (runs_effs b1 b2 r O0 T0 us tr_none r E0 So AI (fun u _ => tr_none_ok _ _ _)) as (m & Rm & Em).
+  destruct (runs_effs b1 b2 r O0 T0 us' tr_none r E0 So' AI' (fun u _ => tr_none_ok _ _ _)) as (m' & Rm' & Em').
+  exists m, m'. split; [exact Rm|]. split; [exact Rm'|].
+  rewrite (shared_state_active _ _ Em), (shared_state_active _ _ Em'). apply effs_perm; auto.
+Qed.
+
+(* non-vacuity: the two example turns form a round *)
+Definition ex_ta : turn := {| u_idx := 0; u_R := ex_Ka; u_W := ex_Ka; u_x := fst (fst (ex_turn 0)); u_r := snd (fst (ex_turn 0)); u_v := snd (ex_turn 0) |}.
+Definition ex_tb : turn := {| u_idx := 1; u_R := ex_Kb; u_W := ex_Kb; u_x := fst (fst (ex_turn 1)); u_r := snd (fst (ex_turn 1)); u_v := snd (ex_turn 1) |}.
+Example ex_round : Forall (solo false false ex_machine) [ex_ta; ex_tb] /\ all_independent [ex_ta; ex_tb].
+Proof.
+  split.
+  - constructor; [exact ex_solo_a|]. constructor; [exact ex_solo_b|]. constructor.
+  - split.
+    + cbn [map u_idx ex_ta ex_tb]. constructor; [intros [H|[]]; discriminate|]. constructor; [intros []|constructor].
+    + intros u w [<-|[<-|[]]] [<-|[<-|[]]] Ne; cbn [u_idx u_R u_W ex_ta ex_tb] in *;
+        try (exfalso; apply Ne; reflexivity); reflexivity.
 Qed.
